@@ -1,4 +1,4 @@
-"""C03: dispatch goes to a least-loaded open member (heap balancer; aperture inherits the heap)."""
+"""C03: dispatch goes to a least-loaded open member (verified for the heap balancer)."""
 CLAIMED = True
 UNITS = []   # every FUNCTIONS entry with 'C03' in props is added automatically
 MIN_OBLIGATIONS = 600
@@ -10,7 +10,9 @@ LEVEL_TEXT = ('Every obligation generated from the current source of Heap.Swap/F
               'and the dispatch point proves from it that the chosen member is a minimum of the (load,index) order, is open unless every member is marked down, '
               'and has the fewest outstanding requests among up-marked members.')
 LEVEL_NOTE = ('Trusted: the pyvc encoding of python (DESIGN 2.4), z3/cvc5, assumed contracts of externs (random.randint, channel Close/AsyncProcessRequest, channel factory), '
-              'assumed contracts of _FindNodeByEndpoint and _OpenNode (listed in the evidence), the hook contracts _OnGet/_OnPut/_OnNodeDown as behavioural-subtyping obligations. '
+              'the assumed contract of _OpenNode (listed in the evidence; _FindNodeByEndpoint is proved). SCOPE: HeapBalancerSink with its own no-op hooks _OnGet/_OnPut/_OnNodeDown. '
+              'The ApertureBalancerSink overrides of these hooks add and remove heap members during __Get/__Put and do NOT satisfy the hook contracts used here (heap positions unchanged, size not decreasing): '
+              'for the aperture balancer C03 is not established by this check (see C06 under not_applicable). '
               'Not proved: termination of __Get; that every down-marked member is on the down list (completeness of the resurrection scan); fewer than 2^31-3 outstanding requests per member is assumed.')
 ASSUMPTIONS = [
   'loads are python ints (exact arithmetic)',
